@@ -14,6 +14,16 @@ DESIGN = {
 }
 
 
+ALGO = {'C03': 'lindig', 'C05': 'lindig', 'C06': 'lindig', 'C04': 'fcbo', 'C09': 'merge'}
+
+
+def design_for(prop, tier):
+    out = list(DESIGN[tier])
+    if prop in ALGO:
+        out.append(('MC_Algorithms', f'MC_Alg_{ALGO[prop]}_{tier}.cfg'))
+    return out
+
+
 def behaviour_events(path, b):
     out = []
     with open(path, encoding='utf-8') as f:
@@ -50,7 +60,7 @@ def _run(prop, tier, seed, replay, work, t0):
     states = transitions = 0
     design_info = []
     if replay is None:
-        for module, cfg in DESIGN[tier]:
+        for module, cfg in design_for(prop, tier):
             if not os.path.exists(os.path.join(common.SPEC, cfg)):
                 continue
             r = common.design_mc(module, cfg, work)
